@@ -118,6 +118,8 @@ class CircWorld(StateWorld):
         unit = rng.choice(["circuit", "circuit", "layer", "gate"])
         op = {"op": "roundtrip", "circ": name, "unit": unit, "order": rng.choice(["fb", "bf"]),
               "probe": self._probe(rng)}
+        if unit in ("layer", "gate") and rng.random() < 0.3:
+            op["copy"] = True   # round trip through a copy() of the unit in its current cache state
         if unit == "layer":
             op["layer"] = rng.randrange(0, 6)
         elif unit == "gate":
@@ -528,6 +530,13 @@ class CircWorld(StateWorld):
             ctx = "gate:%s:%s%s" % (c["specs"][op["gate"]]["kind"],
                                     "F" if u.forward_map is not None else "-",
                                     "B" if u.backward_map is not None else "-")
+        if op.get("copy") and unit in ("layer", "gate"):
+            try:
+                u = u.copy()
+            except Exception as e:
+                self._viol("copy_raised", exc=repr(e), unit=unit)
+            ctx += ":copy"
+            self.stats["config:unit_copied_before_roundtrip"] += 1
         k = self._roundtrip(u.forward, u.backward, op["order"], op["probe"], ctx)
         self.trans.add(hash(("rt", ctx, op["order"], k)) & 0xFFFFFFFFFFFF)
         self.stats["config:" + ctx.split(":")[0] + "_roundtrip"] += 1
